@@ -366,3 +366,24 @@ def c13_9(ctx):
     w_ = [s for s in nn.body if isinstance(s, ast.While)]
     if not w_ or not prop_equiv(w_[0].test, 'len(mask.shape) > 1')[0] or N(w_[0].body[0].value) != 'mask.min(axis=1)':
         ctx.fail(nn, w_[0] if w_ else nn.node, '_nona does not reduce the mask over the columns while it has more than one dimension')
+
+
+@obligation('C13.10', 'TABLES (guards by truth table) + PATH', '_pandas:_is_non_decreasing',
+            'stitching puts decreasing bound lists in chronological order first: the direction test answers "non-decreasing" without looking only for FEWER THAN TWO bounds (two bounds can be decreasing), ignores a leading/trailing None, and otherwise compares the list with its sorted self (reverse-sorted: decreasing; neither: error)',
+            axioms=())
+def c13_10(ctx):
+    f = ctx.repo.fn('_pandas:_is_non_decreasing')
+    v = f.params[0]
+    expect_guards(ctx, f, [('len(%s) < 2' % v, 'return True', 'nothing to order'),
+                           ('%s[-1] is None' % v, '%s = %s[:-1]' % (v, v), 'an open end is not a bound'),
+                           ('%s[0] is None' % v, '%s = %s[1:]' % (v, v), 'an open start is not a bound')], where=f.body)
+    ctx.count(1)
+    sv = [s for s in f.body if isinstance(s, ast.Assign) and N(s.value) == 'sorted(%s)' % v]
+    if not sv:
+        ctx.fail(f, f.node, 'the bounds are not compared with their sorted self')
+        return
+    name = U(sv[0].targets[0])
+    expect_guards(ctx, f, [('%s == %s' % (name, v), 'return True', 'already chronological'),
+                           ('%s == %s[::-1]' % (name, v), 'return False', 'decreasing: to be reversed')])
+    if not any(isinstance(n, ast.Raise) for n in ast.walk(f.node)):
+        ctx.fail(f, f.node, 'bounds that are neither increasing nor decreasing are no longer rejected')
